@@ -112,7 +112,7 @@ class Run:
         self.technique = technique
         self.workers = workers or int(os.environ.get("VERIF_WORKERS", "0")) or min(16, os.cpu_count() or 4)
         self.t0 = time.time()
-        default_budget = 150 if tier == "quick" else 3600
+        default_budget = 600 if tier == "quick" else 3600
         self.budget_s = budget_s or float(os.environ.get("VERIF_BUDGET_S", default_budget))
         self.evaluations = 0
         self.nontrivial_keys: set = set()
